@@ -385,9 +385,16 @@ impl ThreadPool {
         F: FnOnce() + Send + 'static,
     {
         let job = Box::new(f);
+        // A job is busy from the moment it is submitted, not from the moment a worker
+        // picks it up: otherwise the growth decision below reads a counter that lags
+        // behind and a queued job can be left without a worker.
+        let busy = {
+            let mut num_busy = self.num_busy.write().unwrap();
+            *num_busy += 1;
+            *num_busy
+        };
         self.sender.send(Message::NewJob(job)).unwrap();
-        if ((self.num_busy() + 1) >= self.workers.len()) && (self.workers.len() <= self.max_workers)
-        {
+        if (busy > self.workers.len()) && (self.workers.len() < self.max_workers) {
             self.workers.push(Worker::new(
                 Arc::clone(&self.receiver),
                 Arc::clone(&self.num_busy),
@@ -426,10 +433,7 @@ impl Worker {
 
             match message {
                 Message::NewJob(job) => {
-                    {
-                        let mut num_busy = num_busy.write().unwrap();
-                        *num_busy += 1;
-                    }
+                    // counted as busy by ThreadPool::execute() on submission
                     job.call_box();
                     {
                         let mut num_busy = num_busy.write().unwrap();
